@@ -284,7 +284,9 @@ pub(crate) fn run(opts: &Opts, report: &mut Report) {
     // block numbers beyond one byte (records and index keys are ordered by their encoded block
     // number): a 270-block chain with the scripts registered from block 248, filter batches of 4
     // and slow block bodies, so that several matched-blocks records around block 256 are pending
-    items.push((HIGH_WORLD, 0, 10_004));
+    // (check point interval 20 for this world: one interval spans block 256, so records on both
+    // sides of it are pending at the same time)
+    items.push((HIGH_WORLD, 0, 10_002));
     if thorough {
         items.push((HIGH_WORLD, 0, 10_003));
         items.push((HIGH_WORLD, 0, 5));
@@ -323,7 +325,7 @@ pub(crate) fn run(opts: &Opts, report: &mut Report) {
             regs: regs.clone(),
             cfg: ClientCfg {
                 last_n: 3,
-                cp_interval: 4,
+                cp_interval: if wi == HIGH_WORLD { 20 } else { 4 },
                 ..Default::default()
             },
             filter_batch: batch,
@@ -331,6 +333,13 @@ pub(crate) fn run(opts: &Opts, report: &mut Report) {
             fetch_headers: vec![2],
             raised: std::cell::RefCell::new(None),
         };
+        if std::env::var("C03_TRACE").is_ok() {
+            let mut v = vec![];
+            let (_s, out) = explore::run(&sc, None, &[], 0, true, &mut v);
+            for l in &out.trace {
+                eprintln!("  {}", l);
+            }
+        }
         // (two deviations for the batch-3 histories; the others stay at one: the pair space of all
         // 72 histories did not finish under the run cap)
         let bound = if thorough && batch == 3 { 2 } else { 1 };
